@@ -395,6 +395,62 @@ Proof.
   repeat split; try lra; nra.
 Qed.
 
+(* ---------------------------------------------------------------- 2.7  residual <-> backward error of ONE root *)
+(* |p(x)| <= k (|a||x|^2 + |b||x| + |c|)  iff  x is an exact root of a quadratic whose coefficients are within k, relatively *)
+Lemma residual_to_backward (a b c x : C) (k : R) : 0 <= k ->
+  Cmod (qval a b c x) <= k * qsize a b c x ->
+  exists da db dc : C, Cmod da <= k * Cmod a /\ Cmod db <= k * Cmod b /\ Cmod dc <= k * Cmod c /\
+    qval (a + da)%C (b + db)%C (c + dc)%C x = C0.
+Proof.
+  intros Pk H. set (S := qsize a b c x) in *. set (r := qval a b c x) in *.
+  pose proof (Cmod_ge_0 a) as Pa. pose proof (Cmod_ge_0 b) as Pb. pose proof (Cmod_ge_0 c) as Pc.
+  pose proof (Cmod_ge_0 x) as Px. pose proof (Cmod_ge_0 r) as Pr.
+  assert (PS : 0 <= S).
+  { unfold S, qsize. assert (0 <= Cmod a * Cmod x * Cmod x) by (repeat apply Rmult_le_pos; assumption).
+    assert (0 <= Cmod b * Cmod x) by (apply Rmult_le_pos; assumption). lra. }
+  destruct (Req_EM_T S 0) as [ZS|NS].
+  - exists C0, C0, C0. rewrite Cmod_0. repeat split; try nra.
+    rewrite ZS, Rmult_0_r in H. assert (Zr : r = C0) by (apply Cmod_eq_0; lra).
+    transitivity r; [unfold r, qval; ring | exact Zr].
+  - assert (PS' : 0 < S) by lra.
+    assert (Q : forall w : R, 0 <= w -> Cmod r * (w / S) <= k * w).
+    { intros w Hw. unfold Rdiv. replace (Cmod r * (w * / S)) with (w * (Cmod r * / S)) by ring.
+      rewrite (Rmult_comm k). apply Rmult_le_compat_l; [exact Hw|].
+      apply (Rmult_le_reg_r S); [exact PS'|]. rewrite Rmult_assoc, Rinv_l by lra. lra. }
+    assert (NSC : RtoC S <> C0) by (intros E; apply RtoC_inj in E; lra).
+    destruct (Ceq_dec x C0) as [Zx|Nx].
+    + exists C0, C0, (- r * RtoC (Cmod c / S))%C. rewrite Cmod_0.
+      split; [nra|]. split; [nra|]. split.
+      * rewrite Cmod_mult, Cmod_opp, Cmod_R, Rabs_pos_eq.
+        -- apply Q. exact Pc.
+        -- unfold Rdiv. apply Rmult_le_pos; [exact Pc|]. apply Rlt_le, Rinv_0_lt_compat. exact PS'.
+      * assert (ES : S = Cmod c) by (unfold S, qsize; rewrite Zx, Cmod_0; ring).
+        assert (Er : r = c) by (unfold r, qval; rewrite Zx; ring).
+        unfold qval. rewrite Zx, Er, <- ES. unfold Rdiv. rewrite Rinv_r by lra. ring.
+    + assert (Px' : 0 < Cmod x) by (now apply Cmod_gt_0).
+      exists (- r * RtoC (Cmod a * Cmod x * Cmod x / S) / (x * x))%C,
+             (- r * RtoC (Cmod b * Cmod x / S) / x)%C,
+             (- r * RtoC (Cmod c / S))%C.
+      assert (Pi : 0 < / S) by (apply Rinv_0_lt_compat; exact PS').
+      split; [|split; [|split]].
+      * rewrite Cmod_div by (now apply Cmult_neq_0). rewrite !Cmod_mult, Cmod_opp, Cmod_R, Rabs_pos_eq.
+        2:{ unfold Rdiv. repeat apply Rmult_le_pos; lra. }
+        replace (Cmod r * (Cmod a * Cmod x * Cmod x / S) / (Cmod x * Cmod x)) with (Cmod r * (Cmod a / S)) by (field; lra).
+        apply Q. exact Pa.
+      * rewrite Cmod_div by exact Nx. rewrite !Cmod_mult, Cmod_opp, Cmod_R, Rabs_pos_eq.
+        2:{ unfold Rdiv. repeat apply Rmult_le_pos; lra. }
+        replace (Cmod r * (Cmod b * Cmod x / S) / Cmod x) with (Cmod r * (Cmod b / S)) by (field; lra).
+        apply Q. exact Pb.
+      * rewrite Cmod_mult, Cmod_opp, Cmod_R, Rabs_pos_eq.
+        2:{ unfold Rdiv. repeat apply Rmult_le_pos; lra. }
+        apply Q. exact Pc.
+      * assert (ES : (RtoC (Cmod a * Cmod x * Cmod x / S) + RtoC (Cmod b * Cmod x / S) + RtoC (Cmod c / S))%C = C1).
+        { rewrite <- !RtoC_plus. f_equal. unfold S, qsize. field. fold (qsize a b c x). fold S. lra. }
+        transitivity (r - r * (RtoC (Cmod a * Cmod x * Cmod x / S) + RtoC (Cmod b * Cmod x / S) + RtoC (Cmod c / S)))%C.
+        -- unfold qval, r, qval. field. exact Nx.
+        -- rewrite ES. ring.
+Qed.
+
 (* ---------------------------------------------------------------- 3. the arithmetic, and the model in it *)
 Section RoundArith.
 Variable eps : R.
@@ -648,6 +704,115 @@ Proof.
   destruct (rel_mult eps _ _ eps_nonneg (fdiv_ok c (q_q a b c) NZ)) as (d10 & D10 & E10).
   rewrite E10, Eq. apply root1_bound; try assumption.
   intros Zq. apply NZ. rewrite Eq, Zq. ring.
+Qed.
+
+
+(* 3.4  the repaired branch q == 0: taken exactly when b = c = 0, and then both returned values are 0 *)
+Lemma rel0 (t : C) : Cmod (t - C0)%C <= eps * Cmod C0 -> t = C0.
+Proof. rewrite Cmod_0, Rmult_0_r. apply Cmod_sub_0. Qed.
+
+Lemma fmul_0_l (y : C) : fmul C0 y = C0.
+Proof. apply rel0. replace C0 with (C0 * y)%C at 2 3 by ring. apply fmul_ok. Qed.
+Lemma fmul_0_r (x : C) : fmul x C0 = C0.
+Proof. apply rel0. replace C0 with (x * C0)%C at 2 3 by ring. apply fmul_ok. Qed.
+Lemma fscale_0 (r : R) : fscale C0 r = C0.
+Proof. apply rel0. replace C0 with (C0 * RtoC r)%C at 2 3 by ring. apply fscale_ok. Qed.
+Lemma fdiv_0 (y : C) : y <> C0 -> fdiv C0 y = C0.
+Proof. intros H. apply rel0. replace C0 with (C0 / y)%C at 2 3 by (field; exact H). now apply fdiv_ok. Qed.
+Lemma fadd_0 : fadd C0 C0 = C0.
+Proof. apply rel0. replace C0 with (C0 + C0)%C at 3 4 by ring. apply fadd_ok. Qed.
+Lemma fsub_0 : fsub C0 C0 = C0.
+Proof. apply rel0. replace C0 with (C0 - C0)%C at 3 4 by ring. apply fsub_ok. Qed.
+Lemma fsqrt_0 : fsqrt C0 = C0.
+Proof.
+  destruct (fsqrt_ok C0) as (w & Ew & Hw).
+  assert (Zw : w = C0).
+  { apply Cmod_eq_0. assert (K : Cmod w * Cmod w = 0) by (rewrite <- Cmod_mult, Ew; apply Cmod_0).
+    pose proof (Cmod_ge_0 w). nra. }
+  subst w. now apply rel0.
+Qed.
+
+Theorem quadratic_q0_round_lemma (a b c : C) : a <> C0 -> eps <= / 100 ->
+  (q_q a b c = C0 <-> b = C0 /\ c = C0) /\
+  (q_q a b c = C0 -> quadratic_solve RoundRA a b c = Ok [C0; C0]).
+Proof.
+  intros Ha He.
+  assert (Dir : q_q a b c = C0 -> b = C0 /\ c = C0).
+  { intros Zq. destruct (quad_core a b c He) as (sh & sg & qx & rho & _ & _ & _ & NC & Eq & Hr & HE).
+    destruct (numeric_bounds eps (conj eps_nonneg He)) as (N1 & N2 & N3 & N4 & N5).
+    assert (Zx : qx = C0).
+    { destruct (Ceq_dec qx C0) as [Z|NZ]; [exact Z|]. exfalso.
+      assert (Hrho : rho <> C0) by (apply (near_nz _ _ Hr); lra).
+      apply (Cmult_neq_0 _ _ NZ Hrho). now rewrite <- Eq. }
+    rewrite Zx in HE, NC. rewrite Cmod_0 in HE, NC.
+    replace (C0 * C0 + b * C0 + a * c)%C with (a * c)%C in HE by ring. rewrite Cmod_mult in HE.
+    pose proof (Cmod_ge_0 b). pose proof (Cmod_ge_0 c). pose proof (Cmod_ge_0 sh).
+    assert (Pa : 0 < Cmod a) by (now apply Cmod_gt_0).
+    assert (Pac : 0 <= Cmod a * Cmod c) by (apply Rmult_le_pos; lra).
+    split; apply Cmod_eq_0.
+    - assert (0 <= Cmod sh * Cmod sh) by apply Rle_0_sqr. nra.
+    - assert (Cmod a * Cmod c <= 0) by nra. nra. }
+  assert (Rev : b = C0 /\ c = C0 -> q_q a b c = C0).
+  { intros [-> ->]. unfold q_q, q_sgn, q_disc.
+    rewrite fmul_0_l, fmul_0_r, fsub_0, fsqrt_0, fscale_0, fadd_0. apply fscale_0. }
+  split; [split; assumption|].
+  intros Zq. rewrite quadratic_solve_round_eq, Zq.
+  destruct (Ceq_dec C0 C0) as [_|N]; [|now contradiction N]. now rewrite (fdiv_0 a Ha).
+Qed.
+
+(* 3.5  the product of the two returned values: c / a to within two roundings *)
+Lemma quadratic_product_lemma (a b c : C) : a <> C0 -> q_q a b c <> C0 ->
+  exists r0 r1 d : C, quadratic_solve RoundRA a b c = Ok [r0; r1] /\
+    Cmod d <= 2 * eps + eps * eps /\ (r0 * r1)%C = (c / a * (C1 + d))%C.
+Proof.
+  intros Ha Hq. rewrite quadratic_solve_round_eq.
+  destruct (Ceq_dec (q_q a b c) C0) as [Z|_]; [contradiction|].
+  destruct (rel_mult eps _ _ eps_nonneg (fdiv_ok (q_q a b c) a Ha)) as (d9 & D9 & E9).
+  destruct (rel_mult eps _ _ eps_nonneg (fdiv_ok c (q_q a b c) Hq)) as (d10 & D10 & E10).
+  exists (fdiv (q_q a b c) a), (fdiv c (q_q a b c)), (d9 + d10 + d9 * d10)%C.
+  split; [reflexivity|]. split.
+  - eapply Rle_trans; [apply Cmod_tri3|]. rewrite Cmod_mult.
+    pose proof (Cmod_ge_0 d9). pose proof (Cmod_ge_0 d10). nra.
+  - rewrite E9, E10. field. split; assumption.
+Qed.
+
+(* 3.6  degree 1 and 2 through poly_solve (refine = false: no polishing) *)
+Lemma poly_solve_deg2_eq (a b c : C) :
+  poly_solve RoundRA [c; b; a] false = (let* rs := quadratic_solve RoundRA a b c in Ok (rs, [])).
+Proof.
+  unfold poly_solve. cbn [length usub Nat.leb Nat.sub bind Nat.eqb Nat.ltb repeat rd nth_error].
+  rewrite quadratic_solve_round_eq. reflexivity.
+Qed.
+
+Theorem linear_root_backward_lemma (c0 c1 : C) : c1 <> C0 ->
+  exists r d : C, poly_solve RoundRA [c0; c1] false = Ok ([r], []) /\
+    Cmod d <= eps /\ (c1 * r + c0 * (C1 + d))%C = C0.
+Proof.
+  intros H1.
+  destruct (rel_mult eps _ _ eps_nonneg (fdiv_ok (- c0)%C c1 H1)) as (d & Hd & E).
+  exists (fdiv (- c0)%C c1), d. split; [reflexivity|]. split; [exact Hd|].
+  rewrite E. field. exact H1.
+Qed.
+
+Theorem roots_deg2_residual_lemma (a b c : C) : a <> C0 -> eps <= / 100 ->
+  exists r0 r1 : C, poly_solve RoundRA [c; b; a] false = Ok ([r0; r1], []) /\
+    forall x : C, x = r0 \/ x = r1 -> Cmod (qval a b c x) <= 16 * eps * qsize a b c x.
+Proof.
+  intros Ha He. destruct (quadratic_residual_lemma a b c Ha He) as (r0 & r1 & E & H).
+  exists r0, r1. split; [|exact H]. rewrite poly_solve_deg2_eq, E. reflexivity.
+Qed.
+
+(* 3.7  each returned value is an exact root of a nearby quadratic *)
+Theorem quadratic_backward_lemma (a b c : C) : a <> C0 -> eps <= / 100 ->
+  exists r0 r1 : C, poly_solve RoundRA [c; b; a] false = Ok ([r0; r1], []) /\
+    forall x : C, x = r0 \/ x = r1 ->
+      exists da db dc : C,
+        Cmod da <= 16 * eps * Cmod a /\ Cmod db <= 16 * eps * Cmod b /\ Cmod dc <= 16 * eps * Cmod c /\
+        ((a + da) * x * x + (b + db) * x + (c + dc))%C = C0.
+Proof.
+  intros Ha He. destruct (roots_deg2_residual_lemma a b c Ha He) as (r0 & r1 & E & H).
+  exists r0, r1. split; [exact E|]. intros x Hx.
+  apply residual_to_backward; [lra|]. now apply H.
 Qed.
 
 End RoundArith.
